@@ -34,6 +34,9 @@ def srcTlcp : Src where
   recordTypeCCS := Facts.tlcp.recordTypeChangeCipherSpec
   alertBadRecordMAC := Facts.tlcp.alertBadRecordMAC
   alertInternalError := Facts.tlcp.alertInternalError
+  -- `encrypt` advances out.seq; nothing after it (in particular not the error branch of the
+  -- transport write) assigns to the sequence state
+  seqConsumedOnWriteError := Facts.tlcp.writeRecordPerRecord == ["encrypt", "write"]
 
 def srcDtlcp : Src where
   labelMaster := bytesOf Facts.dtlcp.masterSecretLabel
@@ -60,6 +63,8 @@ def srcDtlcp : Src where
   recordTypeCCS := Facts.dtlcp.recordTypeChangeCipherSpec
   alertBadRecordMAC := Facts.dtlcp.alertBadRecordMAC
   alertInternalError := Facts.dtlcp.alertInternalError
+  -- `c.writeSeq++` stands between `encrypt` and the transport write
+  seqConsumedOnWriteError := Facts.dtlcp.writeRecordPerRecord == ["c.setWriteSeq()", "encrypt", "c.writeSeq++", "write"]
 
 def srcOf : Stack → Src
   | .tlcp => srcTlcp
